@@ -9,6 +9,9 @@ pub open spec fn min_spec(a: usize, b: usize) -> usize { if a <= b { a } else { 
 // core::cmp::min on usize (rule R-misc)
 pub fn cmp_min(a: usize, b: usize) -> (r: usize) ensures r == min_spec(a, b) { if a <= b { a } else { b } }
 
+// rule R-panic: a function that may panic returns PanicOr; `ret is Panic <==> ..` is then an ordinary postcondition
+pub enum PanicOr<R> { Panic, Ret(R) }
+
 // ===================== engine-V prelude: slot ledger (TRUSTED) =====================
 // Rule R-slots: a field or local of type GenericArray<T,N> / ManuallyDrop<..> / GenericArray<MaybeUninit<T>,N> becomes
 // `Slots<T,N>`, whose view is Seq<Option<T>>: Some(v) = slot initialised and owned here, None = uninitialised / moved out /
@@ -92,6 +95,11 @@ pub trait ForeignClone: Sized {
     spec fn cloned(&self, r: Self) -> bool;
     fn clone_(&self) -> (r: Self) ensures self.cloned(r);
 }
+pub trait Foreign1<A, R> {
+    spec fn log(&self) -> Seq<(A, R)>;
+    fn call(&mut self, a: A) -> (r: R)
+        ensures final(self).log() == old(self).log().push((a, r));
+}
 
 
 // ===== extracted: src/iter.rs =====
@@ -123,6 +131,7 @@ impl<T, N: ArrayLength> GenericArrayIter<T, N> {
     {
         self.index_back - self.index
     }
+    proof fn reach_len(self) requires self.wf(), { assert(false); } /*OB:canary.len:*/
 
     // extracted from src/iter.rs:133  `fn size_hint(&self) -> (usize, Option<usize>)`
     fn size_hint(&self) -> (r: (usize, Option<usize>))
@@ -134,6 +143,7 @@ impl<T, N: ArrayLength> GenericArrayIter<T, N> {
         let len = self.len();
         (len, Some(len))
     }
+    proof fn reach_size_hint(self) requires self.wf(), { assert(false); } /*OB:canary.size_hint:*/
 
     // extracted from src/iter.rs:87  `fn next(&mut self) -> Option<T>`
     fn next(&mut self) -> (r: Option<T>)
@@ -162,6 +172,7 @@ impl<T, N: ArrayLength> GenericArrayIter<T, N> {
         }
         __ret
     }
+    proof fn reach_next(self) requires self.wf(), { assert(false); } /*OB:canary.next:*/
 
     // extracted from src/iter.rs:165  `fn next_back(&mut self) -> Option<T>`
     fn next_back(&mut self) -> (r: Option<T>)
@@ -189,6 +200,7 @@ impl<T, N: ArrayLength> GenericArrayIter<T, N> {
         }
         __ret
     }
+    proof fn reach_next_back(self) requires self.wf(), { assert(false); } /*OB:canary.next_back:*/
 
     // extracted from src/iter.rs:142  `fn nth(&mut self, n: usize) -> Option<T>`
     fn nth(&mut self, n: usize) -> (r: Option<T>)
@@ -223,6 +235,7 @@ impl<T, N: ArrayLength> GenericArrayIter<T, N> {
         }
         __ret
     }
+    proof fn reach_nth(self, n: usize) requires self.wf(), { assert(false); } /*OB:canary.nth:*/
 
     // extracted from src/iter.rs:203  `fn nth_back(&mut self, n: usize) -> Option<T>`
     fn nth_back(&mut self, n: usize) -> (r: Option<T>)
@@ -257,6 +270,7 @@ impl<T, N: ArrayLength> GenericArrayIter<T, N> {
         }
         __ret
     }
+    proof fn reach_nth_back(self, n: usize) requires self.wf(), { assert(false); } /*OB:canary.nth_back:*/
 
     // extracted from src/iter.rs:20  `fn as_slice(&self) -> &[T]`
     fn as_slice(&self) -> (r: SliceRange)
@@ -269,6 +283,7 @@ impl<T, N: ArrayLength> GenericArrayIter<T, N> {
             self.array.range(self.index, self.index_back)
         }
     }
+    proof fn reach_as_slice(self) requires self.wf(), { assert(false); } /*OB:canary.as_slice:*/
 
     // extracted from src/iter.rs:25  `fn as_mut_slice(&mut self) -> &mut [T]`
     fn as_mut_slice(&mut self) -> (r: SliceRange)
@@ -281,6 +296,7 @@ impl<T, N: ArrayLength> GenericArrayIter<T, N> {
             self.array.range(self.index, self.index_back)
         }
     }
+    proof fn reach_as_mut_slice(self) requires self.wf(), { assert(false); } /*OB:canary.as_mut_slice:*/
 
     // extracted from src/iter.rs:54  `fn drop(&mut self)`
     fn drop_impl(&mut self)
@@ -295,6 +311,7 @@ impl<T, N: ArrayLength> GenericArrayIter<T, N> {
             self.array.drop_range(__s.lo, __s.hi);
         }
     }
+    proof fn reach_drop_impl(self) requires self.wf(), { assert(false); } /*OB:canary.drop_impl:*/
 
     // extracted from src/iter.rs:138  `fn count(self) -> usize`
     fn count(self) -> (r: (usize, Self))
@@ -311,6 +328,7 @@ impl<T, N: ArrayLength> GenericArrayIter<T, N> {
         this.drop_impl();
         (__ret, this)
     }
+    proof fn reach_count(self) requires self.wf(), { assert(false); } /*OB:canary.count:*/
 
     // extracted from src/iter.rs:157  `fn last(mut self) -> Option<T>`
     fn last(self) -> (r: (Option<T>, Self))
@@ -328,6 +346,7 @@ impl<T, N: ArrayLength> GenericArrayIter<T, N> {
         this.drop_impl();
         (__ret, this)
     }
+    proof fn reach_last(self) requires self.wf(), { assert(false); } /*OB:canary.last:*/
 
     // extracted from src/iter.rs:99  `fn fold<B, F>(mut self, init: B, mut f: F) -> B where F: FnMut(B, Self::Item) -> B,`
     fn fold<B, F: Foreign2<B, T, B>>(self, init: B, f: &mut F) -> (ret: B)
@@ -373,6 +392,7 @@ impl<T, N: ArrayLength> GenericArrayIter<T, N> {
         this.array.forget();
         ret
     }
+    proof fn reach_fold<B, F: Foreign2<B, T, B>>(self, init: B, f: F) requires self.wf(), f.log().len() == 0, { assert(false); } /*OB:canary.fold:*/
 
     // extracted from src/iter.rs:175  `fn rfold<B, F>(mut self, init: B, mut f: F) -> B where F: FnMut(B, Self::Item) -> B,`
     fn rfold<B, F: Foreign2<B, T, B>>(self, init: B, f: &mut F) -> (ret: B)
@@ -417,6 +437,7 @@ impl<T, N: ArrayLength> GenericArrayIter<T, N> {
         this.array.forget();
         ret
     }
+    proof fn reach_rfold<B, F: Foreign2<B, T, B>>(self, init: B, f: F) requires self.wf(), f.log().len() == 0, { assert(false); } /*OB:canary.rfold:*/
 
 }
 
@@ -449,6 +470,7 @@ impl<T: ForeignClone, N: ArrayLength> GenericArrayIter<T, N> {
         }
         iter
     }
+    proof fn reach_clone(self) requires self.wf(), { assert(false); } /*OB:canary.clone:*/
 
 }
 
@@ -468,6 +490,7 @@ pub fn manually_drop_new<T, N: ArrayLength>(a: Slots<T, N>) -> (r: Slots<T, N>) 
             array: manually_drop_new(this), index: 0, index_back: N::usize_(),
         }
     }
+    proof fn reach_into_iter<T, N: ArrayLength>(this: Slots<T, N>) requires this.ok(), this.all_live(), { assert(false); } /*OB:canary.into_iter:*/
 
 proof fn canary() { assert(false); } /*OB:canary:*/
 
